@@ -1120,7 +1120,7 @@ def ctxUniverse (sels : List SelList) (seed nrand : Nat) (exh : Bool) : List Ctx
   -- caps keep the cost bounded when a selector list is large (weave output can have 100+ complexes)
   let canon := sels.flatMap fun l => (canonList l).take 24
   let atoms := ((sels.flatMap atomsOf).eraseDups).take 24
-  let pert := (sels.flatMap fun l => ((canonList l).take 6).flatMap (perturbLines atoms)).take 3000
+  let pert := (sels.flatMap fun l => ((canonList l).take 6).flatMap (perturbLines atoms)).take 1500
   let all := canon ++ pert ++ randCtxs atoms nrand seed ++
     (if exh then allElems.map (fun e => [[e]]) else [])
   all.filterMap linesToCtx
